@@ -61,6 +61,15 @@ impl Case {
             }
         }
     }
+    fn isempty(&mut self) {
+        if self.dead { return; }
+        self.ops.push("isempty".into());
+        let t = &self.tree;
+        match guarded(|| t.is_empty()) {
+            Some(b) => self.outs.push(format!("isempty={}", b)),
+            None => self.outs.push("isempty=panic".into()),
+        }
+    }
     fn verify(&mut self, i: usize, d: &[u8], p: &[u8]) {
         if self.dead { return; }
         self.ops.push(format!("verify {} {} {}", i, hex(d), hex(p)));
@@ -126,12 +135,15 @@ fn gen_leaves(r: &mut Rng, n: usize, style: u64) -> Vec<Vec<u8>> {
 /// one batch on `c`: pushes, root, then for selected positions the genuine path (positive verify)
 /// and a family of negative verifies.
 fn batch(c: &mut Case, r: &mut Rng, leaves: &[Vec<u8>], positions: &[usize], negatives: bool) {
+    c.isempty();
     for l in leaves {
         c.push(l);
     }
+    c.isempty();
     if c.root().is_none() {
         return;
     }
+    c.isempty();
     c.batches += 1;
     let reused = c.batches > 1;
     if reused {
